@@ -29,6 +29,21 @@ func checkC06(s ttxStream) string {
 	if m := diffTTX(exp, sub); m != "" {
 		return fmt.Sprintf("%s (options %+v, page %d/%d%d, serial %v)", m, o, s.Mag, s.Tens, s.Units, s.Serial)
 	}
+	// what a stream denotes does not depend on what was read before in the same process: read other streams with
+	// other national options, then this one again
+	first := canon(sub)
+	for _, primer := range [][3]uint8{{1, 0, 0}, {0, 0, 1}} {
+		p := ttxStream{Mag: 3, Tens: 1, Units: 1, Instances: []ttxInstance{{PTS: 90000, C12: primer[0], C13: primer[1], C14: primer[2], Rows: []ttxRow{{Y: 2, Segs: []ttxSeg{{Text: "#$@[]{|}~"}}}}}}}
+		pb, _ := p.render()
+		_, _ = astisub.ReadFromTeletext(bytes.NewReader(pb), astisub.TeletextOptions{})
+		again, err := astisub.ReadFromTeletext(bytes.NewReader(b), o)
+		if err != nil {
+			return fmt.Sprintf("second read of the same stream failed: %v", err)
+		}
+		if canon(again) != first {
+			return fmt.Sprintf("the same stream reads differently after another stream (national option %v) was read in the same process\n--- first ---\n%s\n--- then ---\n%s", primer, clip(first, 500), clip(canon(again), 500))
+		}
+	}
 	return ""
 }
 
@@ -65,6 +80,7 @@ func c06Labels(s ttxStream) (bool, []string) {
 	add(s.LeadIn > 0, "time-origin-before-first-instance")
 	add(s.Designation == 1, "x28-designation-of-selected-magazine")
 	add(s.Designation == 2, "m29-designation-of-selected-magazine")
+	add(s.Designation == 3, "m29-and-x28-designations-disagree")
 	return len(s.Instances) > 0, ls
 }
 
